@@ -1,7 +1,7 @@
 """C08  Out-of-range operations stop the program and never yield a value.
 
 Exhaustive matrix: array lengths x boundary indices x access kinds {at, array_set,
-array_remove_at, array_pop on empty} x element kinds {int, string, nested array, struct} x
+array_remove_at, array_pop on empty} x element kinds {int, string, nested array, struct, float, bool, u8} x
 surrounding shapes {straight-line, in a callee, in a loop} x engines {native, NanoVM,
 compile-time evaluator (shadow block)}.  Each program takes the index from the environment,
 so one compiled artefact is run with every index.  Oracle: exit status != 0 and the sentinel
@@ -19,6 +19,9 @@ I64_MIN, I64_MAX = -2**63, 2**63 - 1
 ELEMS = {
     "int": dict(ty="int", lit=lambda i: str(10 + i), show=lambda v: "(println %s)" % v, new="77"),
     "string": dict(ty="string", lit=lambda i: '"s%d"' % i, show=lambda v: "(println %s)" % v, new='"nw"'),
+    "float": dict(ty="float", lit=lambda i: "%d.5" % (10 + i), show=lambda v: "(println (< %s 1000.0))" % v, new="7.5"),
+    "bool": dict(ty="bool", lit=lambda i: "true" if i % 2 == 0 else "false", show=lambda v: "(println %s)" % v, new="true"),
+    "u8": dict(ty="u8", lit=lambda i: str(10 + i), show=lambda v: "(println (cast_int %s))" % v, new="7"),
     "nested": dict(ty="array<int>", lit=lambda i: "[%d, %d]" % (i, i + 1), show=lambda v: "(println (array_length %s))" % v, new="[9]"),
     "struct": dict(ty="TS", lit=lambda i: "TS { p: %d, q: %d }" % (i, i * 2), show=lambda v: "(println %s.p)" % v, new="TS { p: 5, q: 6 }"),
 }
@@ -155,7 +158,7 @@ def run(tier):
     lengths = [0, 1, 3, 8] if tier == "quick" else [0, 1, 2, 3, 4, 7, 8, 9, 16, 17]
     jobs = []
     for kind in ("at", "set", "remove", "pop"):
-        for elem in ("int", "string", "nested", "struct"):
+        for elem in ("int", "string", "nested", "struct", "float", "bool", "u8"):      # every element kind has its own runtime accessors
             for shape in ("straight", "callee", "loop"):
                 for n in lengths:
                     if kind == "pop" and n not in (0, 3):
